@@ -36,7 +36,8 @@ CONSTANT Ev(_, _)                 \* value of expression e in context c (a JSON 
 CONSTANTS DevLimiterNoComplete,   \* Limiter::complete does not forward complete()
           DevPopOldest,           \* top-N shortcut drops the oldest tie of the last bucket
           DevTruncAll,            \* every sorter (not only the first key's) keeps just skip+take rows
-          DevSwallowBreak         \* select / split ignore the successor's Break
+          DevSwallowBreak,        \* select / split ignore the successor's Break
+          DevSplitLast            \* split feeds every element and answers with the decision of the last one
 
 NoE == [op |-> "none"]
 NoTake == -1
@@ -132,9 +133,9 @@ GroupAdd(st, key, row) ==
 RECURSIVE Proc(_, _, _, _, _)
 RECURSIVE SplitLoop(_, _, _, _, _, _, _)
 SplitLoop(cfg, ch, st, i, c, elems, j) ==
-  IF j > Len(elems) THEN Cont(st)
+  IF j > Len(elems) THEN (IF DevSplitLast /\ elems # <<>> THEN st ELSE Cont(st))
   ELSE LET r == Proc(cfg, ch, st, i + 1, WithInput(c, elems[j])) IN
-       IF r.dec = "Break" /\ ~DevSwallowBreak THEN r ELSE SplitLoop(cfg, ch, r, i, c, elems, j + 1)
+       IF r.dec = "Break" /\ ~DevSwallowBreak /\ ~DevSplitLast THEN r ELSE SplitLoop(cfg, ch, r, i, c, elems, j + 1)
 Proc(cfg, ch, st, i, c) ==
   LET sg == ch[i] IN
   CASE sg.k = "set" -> Proc(cfg, ch, st, i + 1, [c EXCEPT !.vars = cfg.set, !.macros = cfg.macros])
